@@ -5,12 +5,21 @@ Property theorems.  Sections:
   1. the coefficient tables (`Gen/McTables.lean`, regenerated from CSvmTrainer.h on every
      run): `M_is_gram_of_nu` for ALL class counts c ≥ 2 and every formulation family, table
      well-formedness and capacity (memory safety of the unchecked `QpSparseArray::add`);
-  (further sections are added below as the models grow)
+  2. the decomposition state of `QpMcBoxDecomp` (`Model/McSmo.lean`): `mc_tables_inv`,
+     `mc_box_inv`, `mc_grad_inv` hold initially, are preserved by EVERY operation (updateSMO,
+     deactivateVariable, deactivateExample, shrink, unshrink, addDeltaLinear) and hence hold after
+     every valid finite history of operations — also for the problem built from the generated tables;
+  3. decision logic of the trainers (generated from CSvmTrainer.h): `two_class_dispatch`,
+     `ova_is_binary_per_class`;
+  4. the dedicated linear solver (`Model/McLinear.lean`, QpBoxLinear): `linear_w_inv`,
+     `linear_box_inv` along every schedule, `linear_step_gain_nonneg_partial`.
 
 Models: `Model/McSparse.lean`, `Model/McSmo.lean`; helper lemmas: `Lemmas/McTables.lean`.
 Tie to the C++: translator T2 + correspondence K-C16 (checks/c16.py).
 -/
 import SharkVerif.Lemmas.McTables
+import SharkVerif.Lemmas.McSmoAll
+import SharkVerif.Lemmas.McLinear
 namespace SharkVerif.C16
 open SharkVerif.Mc SharkVerif.Gen.McTables SharkVerif.McTables
 
@@ -94,5 +103,146 @@ theorem tables_fit (f : Family) (c : Nat) (hc : 2 ≤ c) :
   have h1 := tables_rows_length c hc
   have h2 := tables_space_suffices c hc
   cases f <;> simp only [Family.nu, Family.M] <;> tauto
+
+
+/-! ## 2. The decomposition state of `QpMcBoxDecomp` -/
+
+/-- `Q = M ⊗ K` is symmetric for every generated table: `M((y,p),(y',p')) = M((y',p'),(y,p))`
+(a corollary of `M_is_gram_of_nu`: Gram matrices are symmetric) -/
+theorem generated_M_symmetric (f : Family) (c : Nat) (hc : 2 ≤ c) (y p y' p' : Nat)
+    (hy : y < c) (hy' : y' < c) (hp : p < f.P c) (hp' : p' < f.P c) :
+    ((f.M c).row (c * (f.P c * y + p) + y')).get p' = ((f.M c).row (c * (f.P c * y' + p') + y)).get p := by
+  have h1 := M_is_centred_gram_all f c hc y p y' p' hy hp hy' hp'
+  have h2 := M_is_centred_gram_all f c hc y' p' y p hy' hp' hy hp
+  unfold mAt Sparse.get at h1 h2
+  rw [Nat.mul_comm (f.P c) y, Nat.mul_comm (f.P c) y', h1, h2]
+  unfold gramCentered gram
+  congr 1
+  · exact Finset.sum_congr rfl fun k _ => mul_comm _ _
+  · ring
+
+/-- the problem `QpMcBoxDecomp(kernel, M, labels, linear, C)` for a generated table -/
+def problem (f : Family) (c n : Nat) (C : Rat) (K : Nat → Nat → Rat) (labels : Nat → Nat)
+    (linMat : Nat → Nat → Rat) : McBox Rat :=
+  McBox.init c (f.P c) n C (fun r => (f.M c).row r) K labels linMat
+
+/-- all invariants hold for the freshly constructed problem, for every formulation family, every
+class count `c ≥ 2`, every number of examples, every symmetric matrix `K`, all labels `< c` -/
+theorem invariants_initially (f : Family) (c n : Nat) (hc : 2 ≤ c) (C : Rat) (hC : 0 ≤ C)
+    (K : Nat → Nat → Rat) (hK : ∀ i j, K i j = K j i) (labels : Nat → Nat) (hl : ∀ i < n, labels i < c)
+    (linMat : Nat → Nat → Rat) : FullInv (problem f c n C K labels linMat) := by
+  have hP : 0 < f.P c := by cases f <;> simp [Family.P] <;> omega
+  exact fullInv_init c (f.P c) n C hC _ K labels linMat hP
+    (fun r => M_rows_wellformed f c hc r)
+    (fun y p y' p' hy hy' hp hp' => generated_M_symmetric f c hc y p y' p' hy hy' hp hp')
+    hK hl
+
+/-- **mc_tables_inv**: after every valid finite history of operations on the problem built from a
+generated table, the example/variable tables are mutually inverse permutations with a consistent
+active/inactive split. -/
+theorem mc_tables_inv (f : Family) (c n : Nat) (hc : 2 ≤ c) (C : Rat) (hC : 0 ≤ C)
+    (K : Nat → Nat → Rat) (hK : ∀ i j, K i j = K j i) (labels : Nat → Nat) (hl : ∀ i < n, labels i < c)
+    (linMat : Nat → Nat → Rat) (ops : List Op) (hv : ValidRun (problem f c n C K labels linMat) ops) :
+    TablesInv ((problem f c n C K labels linMat).run ops) :=
+  (fullInv_run ops _ (invariants_initially f c n hc C hC K hK labels hl linMat) hv).tables
+
+/-- **mc_box_inv**: `0 ≤ α ≤ C` after every valid history. -/
+theorem mc_box_inv (f : Family) (c n : Nat) (hc : 2 ≤ c) (C : Rat) (hC : 0 ≤ C)
+    (K : Nat → Nat → Rat) (hK : ∀ i j, K i j = K j i) (labels : Nat → Nat) (hl : ∀ i < n, labels i < c)
+    (linMat : Nat → Nat → Rat) (ops : List Op) (hv : ValidRun (problem f c n C K labels linMat) ops) :
+    BoxInv ((problem f c n C K labels linMat).run ops) :=
+  (fullInv_run ops _ (invariants_initially f c n hc C hC K hK labels hl linMat) hv).box
+
+/-- **mc_grad_inv**: after every valid history the stored gradient of every active variable is
+`lin − Q·α` with `Q = M ⊗ K` (sum over all variables, shrunk or not). -/
+theorem mc_grad_inv (f : Family) (c n : Nat) (hc : 2 ≤ c) (C : Rat) (hC : 0 ≤ C)
+    (K : Nat → Nat → Rat) (hK : ∀ i j, K i j = K j i) (labels : Nat → Nat) (hl : ∀ i < n, labels i < c)
+    (linMat : Nat → Nat → Rat) (ops : List Op) (hv : ValidRun (problem f c n C K labels linMat) ops) :
+    GradInv ((problem f c n C K labels linMat).run ops) :=
+  (fullInv_run ops _ (invariants_initially f c n hc C hC K hK labels hl linMat) hv).grad
+
+/-- in particular after `unshrink` (all variables active) the whole gradient is exact -/
+theorem grad_exact_after_unshrink (s : McBox Rat) (h : FullInv s) :
+    ∀ v < s.P * s.n, s.unshrink.grad v = s.unshrink.lin v - ∑ w ∈ Finset.range (s.P * s.n), s.unshrink.Q v w * s.unshrink.alpha w := by
+  have h' := fullInv_apply s h .unshrink trivial
+  have hg := h'.grad
+  intro v hv
+  have hav : (s.apply .unshrink).activeVar = s.P * s.n := by
+    simp only [McBox.apply, McBox.unshrink]
+    split
+    · rename_i he; simpa [McBox.numVars] using he
+    · rfl
+  have hs := sameStatic_apply s .unshrink
+  have := hg v (by rw [hav]; exact hv)
+  simpa [McBox.apply, hs.2.1, hs.2.2.1] using this
+
+/-- the invariants are stated for arbitrary tables too (any well-formed symmetric `M`): every
+valid op preserves all of them (`fullInv_apply`), over all histories (`fullInv_run`). -/
+theorem invariants_all_histories (s : McBox Rat) (h : FullInv s) (ops : List Op) (hv : ValidRun s ops) :
+    FullInv (s.run ops) := fullInv_run ops s h hv
+
+/-- non-vacuity: a valid two-step history on a two-example WW problem (an SMO step on variable 0,
+then a shrink) -/
+example : ValidRun (problem .WWCS 2 2 1 (fun i j => if i = j then 1 else 0) (fun i => i) (fun _ _ => 1))
+    [.smo 0 0, .shrink 1] := by
+  refine ⟨?_, trivial, trivial⟩
+  simp [Op.valid, problem, McBox.init, Family.P]
+
+/-- `label(i)` as it must behave (and as the model defines it): the label of dataset example `i`,
+whatever the internal order.  What the UNPATCHED C++ returns is `(ex i).y`, the label of the example
+currently at position `i`; by `label_eq` of `mc_tables_inv` that is `labels (ex i).index`, which
+differs from `labels i` as soon as a `deactivateExample` has moved example `i` (finding F-C16-1). -/
+theorem label_at_position (s : McBox Rat) (h : TablesInv s) (i : Nat) (hi : i < s.n) :
+    (s.ex i).y = s.labels (s.ex i).index := h.label_eq i hi
+
+/-! ## 3. Decision logic of the trainers (generated from CSvmTrainer.h) -/
+
+/-- **two_class_dispatch**: on two-class data EVERY formulation is trained by the binary path -/
+theorem two_class_dispatch (t : McSvm) : dispatch 2 t = TrainPath.binary := by
+  cases t <;> rfl
+
+/-- and so is every formulation of the dedicated linear trainer -/
+theorem two_class_dispatch_linear (t : McSvm) : linearDispatch 2 t = "QpBoxLinear" := by
+  cases t <;> rfl
+
+/-- **ova_is_binary_per_class** (decision logic): one-versus-all never reaches the multi-class
+decomposition solvers: for every class count it is the binary path (2 classes) or `trainOVA`, which
+trains one binary machine per class (that column `c` of the result IS the binary machine of class `c`
+against the rest is checked on the real code by the harness oracle, bit for bit) -/
+theorem ova_is_binary_per_class (classes : Nat) :
+    dispatch classes .OVA = (if classes = 2 then TrainPath.binary else TrainPath.ova) := by
+  unfold dispatch; split <;> simp
+
+/-- every other formulation with more than two classes solves the dual given by one of the four
+generated table families — the tables `M_is_gram_of_nu` is about -/
+theorem mc_dispatch_uses_generated_tables (classes : Nat) (h : classes ≠ 2) (t : McSvm) (ht : t ≠ .OVA) :
+    ∃ fam stz sx, dispatch classes t = .mc fam stz sx ∧ fam ∈ ["WWCS", "ATMATS", "ADMLLW", "MMR"] := by
+  cases t <;> simp [dispatch, h] at ht ⊢
+
+/-! ## 4. The dedicated linear solver (QpBoxLinear coordinate step) -/
+
+/-- **linear_w_inv** and **linear_box_inv**: for every data set, every bound ≥ 0, every schedule
+(any order, any repetitions — the random, preference-driven scheduling of the C++ is irrelevant),
+after the sweep `w = Σ_i α_i y_i x_i` and `0 ≤ α ≤ bound`, starting from the fresh solver -/
+theorem linear_w_inv (D : LinData Rat) (hb : 0 ≤ D.bound) (sched : List Nat) (hs : ∀ i ∈ sched, i < D.n) :
+    WInv D (linSweep D linInit sched) :=
+  (lin_inv_sweep D hb sched hs _ (wInv_init D) (linBoxInv_init D hb)).1
+
+theorem linear_box_inv (D : LinData Rat) (hb : 0 ≤ D.bound) (sched : List Nat) (hs : ∀ i ∈ sched, i < D.n) :
+    LinBoxInv D (linSweep D linInit sched) :=
+  (lin_inv_sweep D hb sched hs _ (wInv_init D) (linBoxInv_init D hb)).2
+
+/-- **linear_step_gain_nonneg** — PARTIAL: proved under `0 < |x_i|² + reg`.  The full statement
+(no hypothesis on `q`) is not a theorem of the exact-arithmetic model: for `x_i = 0`, `reg = 0`
+the C++ computes `g/0 = ±inf` and clips, whereas `Rat` division by zero is `0`; the real code accepts
+zero input vectors, so that case is covered by the correspondence only. -/
+theorem linear_step_gain_nonneg_partial (D : LinData Rat) (s : LinState Rat) (i : Nat)
+    (hq : 0 < D.xsq i + D.reg) (ha : 0 ≤ s.alpha i) (hab : s.alpha i ≤ D.bound) :
+    0 ≤ (linStep D s i).2 := linStep_gain_nonneg D s i hq ha hab
+
+/-- non-vacuity of the hypotheses of `linear_step_gain_nonneg_partial` -/
+example : ∃ (D : LinData Rat) (s : LinState Rat), 0 < D.xsq 0 + D.reg ∧ 0 ≤ s.alpha 0 ∧ s.alpha 0 ≤ D.bound :=
+  ⟨{ n := 1, d := 1, x := fun _ _ => 1, ysign := fun _ => 1, xsq := fun _ => 1, bound := 1, reg := 0, offset := 0 },
+   linInit, by norm_num, by simp only [linInit]; norm_num, by simp only [linInit]; norm_num⟩
 
 end SharkVerif.C16
